@@ -29,6 +29,8 @@ find_prog_section match and the address comparison are the generated expressions
    reports those fields as saved" is discharged by Compose.reload_reports_saved_nested: a nested segment's file
    range ends at the end of one of its members, hence inside the file).  Non-vacuity: exNestedM (exFlatM plus a
    PT_LOAD nested in the first one) meets every hypothesis (exNested_ok).
+   Compose.validate_silent_reloaded_flat_input: validate_silent_reloaded_flat with `NoWrap64` of the saved object
+   replaced by the input-side `noWrap64InB o hd` (Compose.noWrap64_of_input) - every hypothesis on the input object.
    validate_silent_save already covers
    objects with nested segments whose nested segments are not PT_LOAD with filesz > 0 (validate ignores
    them; they need not be selected).  validate_silent_save_nested / validate_silent_reloaded_nested
@@ -60,7 +62,8 @@ THEOREMS = ["ElfioVerif.C20.validate_overlap", "ElfioVerif.C20.validate_overlap_
             "ElfioVerif.Compose.validate_silent_reloaded_flat",
             "ElfioVerif.Compose.reload_reports_saved_nested",
             "ElfioVerif.Compose.validate_silent_reloaded_nested_unconditional",
-            "ElfioVerif.Compose.exNested_ok"]
+            "ElfioVerif.Compose.exNested_ok",
+            "ElfioVerif.Compose.validate_silent_reloaded_flat_input"]
 EXTRA_IMPORTS = ["ElfioVerif.Props.Compose", "ElfioVerif.Props.Compose2"]
 SITES = ["validate", "find_prog", "is_offset_in_section", "get_virtual_addr"]
 RULE = ("writer-domain programs x 4 configurations: save, validate, reload, validate (silence expected); then for "
